@@ -28,8 +28,8 @@ ENCODED = ["twisted.words.protocols.irc:IRCClient._sendMessage", "twisted.words.
            "twisted.words.protocols.irc:lowQuote", "twisted.words.protocols.irc:lowDequote",
            "twisted.words.protocols.irc:ctcpQuote", "twisted.words.protocols.irc:ctcpDequote",
            "twisted.words.protocols.irc:ctcpStringify", "twisted.words.protocols.irc:ctcpExtract"]
-BOUNDS = {"quick": {"m": 3, "mr": 3, "mw": 2, "q": 4, "w": 3, "cn": 2, "ct": 2, "cd": 2},
-          "thorough": {"m": 4, "mr": 5, "mw": 4, "q": 5, "w": 5, "cn": 3, "ct": 2, "cd": 3}}
+BOUNDS = {"quick": {"m": 3, "mr": 3, "mw": 2, "q": 4, "w": 3, "cn": 2, "ct": 2, "cth": 1, "cd2": 1, "cd3": 1},
+          "thorough": {"m": 4, "mr": 5, "mw": 4, "q": 5, "w": 5, "cn": 3, "ct": 2, "cth": 1, "cd2": 2, "cd3": 1}}
 B = {}
 BOUNDS_TEXT = ("character classes: TAB | LF | CR | SP,VT,FF | printable ASCII except '-' | any 2-octet character "
                "U+00A1..U+07FF | any 3-octet character U+4E00..U+9FFF | any 4-octet character U+1F300..U+1FAFF.  "
@@ -39,8 +39,9 @@ BOUNDS_TEXT = ("character classes: TAB | LF | CR | SP,VT,FF | printable ASCII ex
                "characters (2 quick, 4 thorough) over SP/VT/FF and the 1..4-octet classes, budgets 4..w+2.  "
                "send_notice / send_default: notice() and msg(length=None) with <= 2 characters over all classes.  "
                "Quoting: every string of <= q characters (4 quick, 5 thorough) over all of Unicode.  ctcp_msgs: "
-               "ctcpStringify -> ctcpExtract of 2 (thorough: 2..3) extended messages, tag of 1..2 characters (any "
-               "but SP), data None or 1..2 (thorough 1..3) characters of any kind")
+               "ctcpStringify -> ctcpExtract of 2 (thorough: 2..3) extended messages; a message without data has a "
+               "tag of 1..2 characters, one with data a tag of 1 character (any but SP) and data of 1 character of "
+               "any kind (thorough: 1..2 for two messages)")
 OUTSIDE = ["'-' in the message (textwrap's hyphen/em-dash break rules are not ported, so they are not explored)",
            "non-ASCII Unicode whitespace (U+0085, U+00A0, U+1680, U+2000.., U+3000, U+001C..U+001F): textwrap "
            "splits on ASCII whitespace only but strips with str.strip(); such characters can be dropped by "
@@ -323,6 +324,10 @@ def _nospace(x):
     return True
 
 
+def _cd(n):
+    return B['cd2'] if n == 2 else B['cd3']
+
+
 def _ctcp_pair(tag, data, has, lt, ld):
     """(message handed to ctcpStringify, message expected back from ctcpExtract)"""
     tag = _fixlen(tag, lt)
@@ -337,7 +342,9 @@ def ctcp_msgs(t1: str, d1: str, h1: bool, t2: str, d2: str, h2: bool, t3: str, d
     pre: 2 <= n <= B['cn']
     pre: 1 <= len(t1) <= B['ct'] and 1 <= len(t2) <= B['ct'] and 1 <= len(t3) <= B['ct']
     pre: _nospace(t1) and _nospace(t2) and _nospace(t3)
-    pre: 1 <= len(d1) <= B['cd'] and 1 <= len(d2) <= B['cd'] and 1 <= len(d3) <= B['cd']
+    pre: 1 <= len(d1) <= _cd(n) and 1 <= len(d2) <= _cd(n) and 1 <= len(d3) <= _cd(n)
+    pre: (not h1 or len(t1) <= B['cth']) and (not h2 or len(t2) <= B['cth']) and (not h3 or len(t3) <= B['cth'])
+    pre: (h1 or len(d1) == 1) and (h2 or len(d2) == 1) and (h3 or len(d3) == 1)
     pre: n == 3 or (len(t3) == 1 and len(d3) == 1 and not h3)
     post: _
     """
@@ -349,7 +356,7 @@ def ctcp_msgs(t1: str, d1: str, h1: bool, t2: str, d2: str, h2: bool, t3: str, d
     want = []
     items = [(t1, d1, h1), (t2, d2, h2)] + ([(t3, d3, h3)] if n == 3 else [])
     for tg, dt, hs in items:
-        m, w = _ctcp_pair(tg, dt, hs, B['ct'], B['cd'])
+        m, w = _ctcp_pair(tg, dt, hs, B['ct'], 2)
         msgs.append(m)
         want.append(w)
     line = irc.ctcpStringify(msgs)
@@ -403,8 +410,9 @@ HARNESSES = [
       timeout={"quick": 90, "thorough": 1500}),
     H(ctcp, shards=lambda tier: _len_shards("s", BOUNDS[tier]["q"], ["\\", "\x01"]),
       timeout={"quick": 90, "thorough": 1500}),
-    H(ctcp_msgs, shards=lambda tier: [("n == %d" % k, "h1 == %s" % a, "h2 == %s" % c)
-                                      for k in range(2, BOUNDS[tier]["cn"] + 1) for a in (True, False) for c in (True, False)],
+    H(ctcp_msgs, shards=lambda tier: [("n == %d" % k, "h1 == %s" % a, "h2 == %s" % c) + (() if k == 2 else ("h3 == %s" % e,))
+                                      for k in range(2, BOUNDS[tier]["cn"] + 1) for a in (True, False) for c in (True, False)
+                                      for e in ((True, False) if k == 3 else (False,))],
       timeout={"quick": 90, "thorough": 1500}),
 ]
 
